@@ -33,15 +33,35 @@ SeqMaxOf(S)  == IF S = {} THEN -1 ELSE Max(S)
 (*   q     merged input (internal key order)                               *)
 (*   w     gc_seqno_threshold                                              *)
 (*   evict evict_tombstones                                                *)
-(*   f     filter: either "none" or a function from <<k, v>> to a verdict  *)
-(*         record [kind |-> "keep"] / [kind |-> "drop"] /                  *)
-(*         [kind |-> "replace", t |-> .., v |-> ..]                        *)
+(*   f     filter: NoFilter or [on |-> TRUE, fn |-> function from <<k, v>> *)
+(*         to a verdict record [kind |-> "keep"] / [kind |-> "drop"] /     *)
+(*         [kind |-> "replace", t |-> .., v |-> ..]]                       *)
 (* Result: [out, dropped, shown]; dropped = arguments of the               *)
 (* dropped-callback in call order, shown = items handed to the filter.     *)
 (***************************************************************************)
+NoFilter == [on |-> FALSE]
 VerdictOf(f, e) ==
-    IF f = "none" THEN [kind |-> "keep"]
-    ELSE IF <<e.k, e.v>> \in DOMAIN f THEN f[<<e.k, e.v>>] ELSE [kind |-> "keep"]
+    IF ~f.on THEN [kind |-> "keep"]
+    ELSE IF <<e.k, e.v>> \in DOMAIN f.fn THEN f.fn[<<e.k, e.v>>] ELSE [kind |-> "keep"]
+
+\* compaction filter as a rule table (harness/src/filter.rs): rules is a sequence of
+\* [k, vp, act, to]; a rule applies to key k when vp = 2 or value % 2 = vp; first match wins.
+\* A replacement that reaches the separation threshold is written to a blob file ("I").
+RuleVerdict(rules, big, k, v) ==
+    LET idx == {i \in 1..Len(rules) : rules[i].k = k /\ (rules[i].vp = 2 \/ v % 2 = rules[i].vp)}
+    IN IF idx = {} THEN [kind |-> "keep"]
+       ELSE LET r == rules[Min(idx)] IN
+            CASE r.act = "remove"     -> [kind |-> "replace", t |-> "T", v |-> NoVal]
+              [] r.act = "removeweak" -> [kind |-> "replace", t |-> "W", v |-> NoVal]
+              [] r.act = "destroy"    -> [kind |-> "drop"]
+              [] r.act = "replace"    -> [kind |-> "replace",
+                                          t |-> IF (v + r.to) \in big THEN "I" ELSE "V", v |-> v + r.to]
+              [] OTHER -> [kind |-> "keep"]
+
+FilterFn(rules, big, input) ==
+    IF rules = <<>> THEN NoFilter
+    ELSE [on |-> TRUE, fn |-> [p \in {<<input[i].k, input[i].v>> : i \in {j \in 1..Len(input) : ~IsTomb(input[j])}}
+            |-> RuleVerdict(rules, big, p[1], p[2])]]
 
 SameKeyPrefixLen(r, k) ==
     LET idx == {i \in 1..Len(r) : r[i].k # k}
@@ -53,7 +73,7 @@ CSRec(q, w, evict, f, acc) ==
     LET h0   == Head(q)
         r    == Tail(q)
         vd   == IF IsTomb(h0) THEN [kind |-> "keep"] ELSE VerdictOf(f, h0)
-        acc1 == IF IsTomb(h0) \/ f = "none" THEN acc
+        acc1 == IF IsTomb(h0) \/ ~f.on THEN acc
                 ELSE [acc EXCEPT !.shown = Append(@, h0)]
     IN
     IF vd.kind = "drop"
